@@ -24,6 +24,11 @@ func init() {
 					Type: "symbol|lambda",
 					Text: "The function to call for each entry in _vectors_.",
 				},
+				{
+					Name: "vector",
+					Type: "vector",
+					Text: "The first vector to iterate over.",
+				},
 				{Name: "&rest"},
 				{
 					Name: "vectors",
